@@ -41,8 +41,45 @@ THEOREMS = [
          clause="0 <= w_i < w_water, and ice exactly at nodes colder than T_eq_l"),
     dict(name="Snow.C07.liquidus_relation", strength="full",
          clause="wherever ice is reported, w_i (m_w+m_s) = m_w - m_s (k_f/M_s)/(T_m - T)"),
-    dict(name="Snow.C07.no_ice_before_nucleation", strength="full",
-         clause="cooling-stage rows store the zero ice field"),
+    dict(name="Snow.C07.no_ice_before_nucleation_2D", strength="full",
+         clause="2D: in a completed run every reported ice row with index < iSaveEnd (cooling stage) is identically 0 "
+                "(induction over the cooling loop)"),
+    dict(name="Snow.C07.no_ice_before_nucleation_1D", strength="full",
+         clause="1D: the same for the histories published by run1DOn"),
+    dict(name="Snow.C07.no_ice_before_nucleation_0D", strength="full",
+         clause="0D: the reported ice fraction is 0 at every index before the nucleation step"),
+    dict(name="Snow.C07.bounds0D_run", strength="full",
+         clause="0D, whole cooling loop: T_0 and all shelf temperatures applied so far in [lo,hi] => product temperature "
+                "in [lo,hi] after every step"),
+    dict(name="Snow.C07.bounds0D_run_coldest", strength="full",
+         clause="0D, cooling loop, shelf programme not rising and not warmer than T_0: coldest shelf so far <= T <= T_0"),
+    dict(name="Snow.C07.maxprinciple1D_cool_run", strength="full",
+         clause="1D shelf configuration, whole cooling loop: every node in [lo,hi] after every step (0<=fo<=1/2, Biot<=1)"),
+    dict(name="Snow.C07.maxprinciple2D_cool_run", strength="full",
+         clause="2D shelf/jacket (no VISF), whole cooling loop, repaired AND in-place update: every node in [lo,hi] after "
+                "every step whenever T_0 and the shelf temperatures applied so far are (StabCtx)"),
+    dict(name="Snow.C07.coolStep_bdd", strength="full", clause="one 2D cooling step keeps a flat field in [lo,hi] (both updates)"),
+    dict(name="Snow.C07.grid1D_fo_le_half", strength="full",
+         clause="the Fourier number of the model's 1D grid is 0.4*alpha/alpha_max, in [0,1/2] for alpha <= 1.25 alpha_max"),
+    dict(name="Snow.C07.bounds0D_solid_static", strength="full",
+         clause="0D solidification step between T and T_shelf under input-only conditions (cp_i<=cp_w, 0<=w<=1-w_s, "
+                "0.1*A*K <= c_lo*rho*V)"),
+    dict(name="Snow.C07.nucleation_jump_bounds", strength="full",
+         clause="nucleation jump: T_nuc < T_after < T_eq_l and 0 < m_i < m_w at supercooled nodes (DerivedOK)"),
+    dict(name="Snow.C07.ice_range_nucleation_row", strength="full",
+         clause="2D post-nucleation row: 0 <= w_i < w_water, ice iff the node was supercooled, on the liquidus of the new T"),
+    dict(name="Snow.C07.ice1D_eq_node", strength="full",
+         clause="the 1D ice formulas (mask as a number; nucleation row and solidification rows) are the node formula"),
+    dict(name="Snow.C07.ice_range_0D", strength="conditional on T < T_eq_l (state condition, evaluated on runs)",
+         clause="0D ice formula is the liquidus expression and lies in (0, w_water) below T_eq_l"),
+    dict(name="Snow.C07.solOK_of_derived", strength="full",
+         clause="the hypothesis SolOK of ice_range/liquidus_relation follows from the derived-constant relations DerivedOK"),
+    dict(name="Snow.C07.derivedOK_pDef", strength="witness", clause="DerivedOK holds for the default configuration"),
+    dict(name="Snow.C07.stabCtx_pDef", strength="witness", clause="StabCtx holds for the default configuration, any flags"),
+    dict(name="monitored:bounds_after_nucleation", strength="monitored",
+         clause="T <= max(T_0, T_eq_l) and (shelf/jacket) T >= coldest shelf so far during the SOLIDIFICATION stage, and "
+                "for VISF cooling rows: no theorem, evaluated on every reported node and time"),
+    dict(name="monitored:finite", strength="monitored", clause="every reported value is finite"),
     dict(name="Snow.C07.nonvacuous", strength="nonvacuity", clause="the stability hypotheses hold for a concrete grid"),
 ]
 TRUSTED = [
@@ -52,6 +89,11 @@ TRUSTED = [
     "fields, rtol 1e-9); 0D/1D models SnowModel/Snowing0D.lean, Snowing1D.lean tied by C08/C11/C13",
 ]
 ASSUMPTIONS = [
+    "DerivedOK (named hypothesis of the ice / nucleation theorems): mass_solute = mass*w_s, mass_water = mass*(1-w_s), "
+    "depression = k_f/M_s * w_s/(1-w_s), 0 < w_s < 1 -- the relations constants.calculateDerived establishes (C19 "
+    "derived_*); instantiated on the default configuration (derivedOK_pDef)",
+    "run-level theorems take 'T_0 and every shelf temperature applied so far lie in [lo,hi]' as hypothesis; for a "
+    "programme that does not rise and starts at T_0 (C05 profile_antitone, profile_head) this is [coldest shelf so far, T_0]",
     "stability range (Stab): CFL number <= 1 (implied by the code's dt), Biot numbers K_shelf*dz/k <= 1 and "
     "K_wall*s/k <= 1, shelf program non-increasing, T_0 >= T_shelf(0)",
     "maximum principle of the SOLIDIFICATION stage (variable conductivity, apparent heat capacity) is not proved: "
@@ -65,6 +107,16 @@ RULE = ("object histories (run, slower ramp, run again on the same object) and s
 EXPLANATION = ("Lean theorems over the reals (convexity of every cooling-stage assignment, 0D steps, liquidus "
                "algebra) + differential check of the 2D model + bounds evaluated on real recorded fields")
 PARALLEL = True
+LEVEL_TEXT = ("PARTIAL proof. Lean 4 theorems (exact reals). RUN LEVEL, cooling stage (induction over the loops): 0D, 1D "
+              "shelf, 2D shelf/jacket (repaired and in-place update) -- every node stays in the interval spanned by T_0 and "
+              "the shelf temperatures applied so far, hence between the coldest shelf so far and T_0 for a non-rising "
+              "programme (hypotheses: CFL from the code's dt, Biot numbers <= 1, named structure StabCtx); every "
+              "cooling-stage row of a completed 0D/1D/2D run reports zero ice. NUCLEATION: T_nuc < T_after < T_eq_l, "
+              "0 < m_i < m_w. ICE: 0 <= w_i < w_water, ice iff T < T_eq_l, liquidus relation, for the 2D, 1D and "
+              "nucleation-row formulas (0D conditional on T < T_eq_l) under the named derived-constant relations "
+              "DerivedOK. PER ASSIGNMENT ONLY: solidification stage (convex form under sign conditions that the "
+              "water/ice pair violates at j = 1). NOT proved, evaluated on every reported node and time: all bounds after "
+              "nucleation, VISF cooling rows, finiteness.")
 
 # --- regeneration tie (harness/gentie.py): the formulas of the hand model SnowModel/Snowing2D.lean are re-derived
 # from /repo's source on every run and proved equal to the generated text (lean/SnowProofs/Props/GenTie/)
@@ -78,7 +130,7 @@ TRUSTED = TRUSTED + ["harness/translate.py formula extraction (single assignment
 def regenerate():
     gentie.regenerate("2D")
 
-LEVEL_TEXT = ("PARTIAL proof. Lean 4 theorems (exact reals): the code's dt implies the CFL inequality; 0D steps (both stages) "
+LEVEL_TEXT_OLD = ("PARTIAL proof. Lean 4 theorems (exact reals): the code's dt implies the CFL inequality; 0D steps (both stages) "
               "stay between T and T_shelf; every cooling-stage assignment of the 1D and of the 2D scheme is a convex "
               "combination of the values it reads (2D: for any reader, so also for the aliased in-place array; r_j >= "
               "dr/2 proved for the code's grid), hence the cooling-stage maximum principle for the repaired and for the "
